@@ -62,6 +62,14 @@ def _unit(px, g):
 def _param(g, idx):
     return g.node.args.args[idx].arg if len(g.node.args.args) > idx else None
 
+
+class _SpelledOut:
+    """a method with the private methods of its class that it calls as statements, or whose value it returns / binds, written out"""
+    def __init__(self, g):
+        self.cls, self.module, self.short, self.name, self.qual = g.cls, g.module, g.short, g.name, g.qual
+        ms = {k: v.node for k, v in g.cls.methods.items() if k != g.name} if g.cls is not None else {}
+        self.node = pyfront.inline_procedures(g.node, {}, methods=ms, values=True)
+
 # ---------------------------------------------------------------------------------------------------------------
 def rule_recheck(ctx, px):
     R = "R-C09-RECHECK"
@@ -162,6 +170,7 @@ def rule_recheck(ctx, px):
     for name in ("_strop_by_keyword", "_strop_by_pattern", "_encode"):
         g0 = px.func(COMMON, f"TokenEncoder.{name}")
         g, pmap, _amap = _unit(px, g0)
+        g = _SpelledOut(g)
         dp = pmap.get(_param(g0, 3) or "dry_run")
         dry_raises = []
         for st, gd in pyfront.walk_guarded(g.node.body):
@@ -293,7 +302,7 @@ def rule_identity(ctx, px):
             return any(got == ["self._stropping_prefix", a, "self._stropping_suffix"] for a in names)
         ok = all(_is_wrapped(v, alias | ({var} if var else set())) for v, _, var in stores)
         ctx.ob(R, g0.module.rel, f"{g0.short} :: modification is prefix + token + suffix", ok, f"{[v for v, _, _x in stores]}", g0.node.lineno)
-    e = px.func(COMMON, "TokenEncoder._encode")
+    e = _SpelledOut(px.func(COMMON, "TokenEncoder._encode"))
     subs = [c for c in ast.walk(e.node) if isinstance(c, ast.Call) and isinstance(c.func, ast.Attribute) and c.func.attr == "sub"]
     ok = len(subs) == 1 and ast.unparse(subs[0].args[0]) == "self._encoding_filter"
     ctx.ob(R, e.module.rel, f"{e.short} :: characters change only inside pattern.sub(self._encoding_filter, ...)", ok, "", e.node.lineno)
@@ -309,10 +318,19 @@ def rule_identity(ctx, px):
             if isinstance(st, ast.Assign) and st.value in subs and isinstance(st.value.func.value, ast.Name) and st.value.func.value.id in elem \
                     and len(st.value.args) == 2 and len(st.targets) == 1 and ast.unparse(st.targets[0]) == ast.unparse(st.value.args[1]):
                 seq.append((src, lp))
-    def _rules_lookup(src_):
+    def _rules_lookup(src_, lp_=None):
         # self.<rules>[<type>]  or  self.<rules>.get(<type>, <empty>)  (no rules configured for the type: nothing to apply)
-        return f"self.{RULES_ATTR}[" in src_ or re.search(rf"self\.{RULES_ATTR}\.get\([^,]+, ?(\(\)|\[\]|tuple\(\)|list\(\))\)", src_) is not None
-    ok = len(subs) == 1 and len(seq) == 1 and _rules_lookup(seq[0][0])
+        if f"self.{RULES_ATTR}[" in src_ or re.search(rf"self\.{RULES_ATTR}\.get\([^,]+, ?(\(\)|\[\]|tuple\(\)|list\(\))\)", src_) is not None:
+            return True
+        # or  rules = self.<rules>.get(<type>)  with `if rules is None: return ...` before the loop
+        if lp_ is not None and isinstance(lp_.iter, ast.Name) and re.fullmatch(rf"self\.{RULES_ATTR}\.get\([^,()]+\)", src_):
+            for st_ in e.node.body:
+                if st_ is lp_ or any(n_ is lp_ for n_ in ast.walk(st_)):
+                    break
+                if isinstance(st_, ast.If) and ast.unparse(st_.test) in (f"{lp_.iter.id} is None", f"not {lp_.iter.id}") and pyfront._always_exits(st_.body):
+                    return True
+        return False
+    ok = len(subs) == 1 and len(seq) == 1 and _rules_lookup(seq[0][0], seq[0][1])
     ctx.ob(R, e.module.rel, f"{e.short} :: every configured rule is applied in turn to the running result (feed-forward)", ok,
            "" if ok else f"the substitution is not `x = rule.sub(callback, x)` inside a loop over self.{RULES_ATTR}[<type>] "
            f"(loops found: {[s_ for s_, _ in seq]}): a rule no longer sees what an earlier rule produced, so e.g. the C++ double-underscore rules miss the "
@@ -323,6 +341,12 @@ def rule_identity(ctx, px):
         if any(isinstance(c, ast.Call) and isinstance(c.func, ast.Attribute) and c.func.attr in ("match", "search") and isinstance(c.func.value, ast.Name)
                and c.func.value.id in _loop_elem_names(lp) for c in ast.walk(lp)):
             chk.append(ast.unparse(pyfront.subst_locals(e.node, lp.iter)))
+    # any(rule.match(x) for rule in rules)
+    for ge in [n for n in ast.walk(e.node) if isinstance(n, (ast.GeneratorExp, ast.ListComp)) and len(n.generators) == 1 and isinstance(n.generators[0].target, ast.Name)]:
+        c = ge.elt
+        if isinstance(c, ast.Call) and isinstance(c.func, ast.Attribute) and c.func.attr in ("match", "search") and isinstance(c.func.value, ast.Name) \
+                and c.func.value.id == ge.generators[0].target.id and not ge.generators[0].ifs:
+            chk.append(ast.unparse(pyfront.subst_locals(e.node, ge.generators[0].iter)))
     ok = bool(chk) and bool(seq) and all(c == seq[0][0] for c in chk)
     ctx.ob(R, e.module.rel, f"{e.short} :: the stability check tests the rules the encoding pass applies", ok, f"pass over {[s_ for s_, _ in seq]}, check over {chk}",
            e.node.lineno)
